@@ -187,7 +187,9 @@ def programs(tier):
                     headers = [("X-App", "v")]
                     if cl != "none":
                         n = total + {"exact": 0, "+1": 1, "-1": -1}[cl]
-                        headers.append(("Content-Length", str(n)))
+                        # header names are case-insensitive: spell it differently now and then
+                        spell = ("Content-Length", "content-length", "CONTENT-LENGTH")[(len(chunks) + total) % 3]
+                        headers.append((spell, str(n)))
                     if delivery in ("write+iter", "write+list") and len(chunks) < 2:
                         continue
                     if status[:3] != "200" and (delivery in ("write+iter", "write+list", "fw-noseek", "fw-offset") or len(chunks) > 2):
